@@ -12,3 +12,61 @@ def cases(tier):
     # individuals offered by that parent, and never more than the free slots
     shared = [c for c in c10.cases(tier) if c["name"].startswith(("levellimit.", "chain.", "demelimit.", "generators."))]
     return tree_cases(PROPERTY, tier, hibernation_values=(False, True)) + run_cases(PROPERTY, tier) + shared
+
+
+def h_dispatch(P):
+    """Engine dispatch through the real init_from_config / DemeTree with a user-registered deme class: a custom level config maps to the
+    registered class, and a user entry cannot override a built-in config class."""
+    import numpy as np
+    from pyhms.config import BaseLevelConfig, EALevelConfig, CMALevelConfig, TreeConfig
+    from pyhms.core.individual import Individual
+    from pyhms.core.problem import FunctionProblem
+    from pyhms.demes.abstract_deme import AbstractDeme
+    from pyhms.demes.cma_deme import CMADeme
+    from pyhms.demes.ea_deme import EADeme
+    from pyhms.demes.single_pop_eas.sea import SEA
+    from pyhms.sprout.sprout_candidates import DemeCandidates, DemeFeatures
+    from pyhms.sprout import get_simple_sprout
+    from pyhms.stop_conditions import DontStop
+    from pyhms.tree import DemeTree
+
+    class MyConfig(BaseLevelConfig):
+        def __init__(self, problem, lsc):
+            super().__init__(problem, lsc)
+
+    class MyDeme(AbstractDeme):
+        def __init__(self, args):
+            super().__init__(args)
+            seed = args.sprout_seed
+            self._history.append([[Individual(np.copy(seed.genome), self._problem).evaluate()]])
+
+        def run_metaepoch(self, tree):
+            self._history.append([[self.current_population[0]]])
+
+    class Hijack(AbstractDeme):
+        def run_metaepoch(self, tree):
+            pass
+
+    bounds = np.array([[-2.0, 2.0], [-1.0, 3.0]])
+    prob = FunctionProblem(lambda x: float(np.sum(x ** 2)), bounds, False)
+    use_custom_leaf = bool(P.bool("custom_leaf"))
+    levels = [EALevelConfig(ea_class=SEA, generations=1, problem=prob, pop_size=4, mutation_std=0.5, lsc=DontStop()),
+              MyConfig(prob, DontStop()) if use_custom_leaf else CMALevelConfig(problem=prob, lsc=DontStop(), generations=1, sigma0=0.5)]
+    cfg = TreeConfig(levels, DontStop(), get_simple_sprout(0.01, 3), options={"random_seed": 3},
+                     config_class_to_deme_class={MyConfig: MyDeme, EALevelConfig: Hijack, CMALevelConfig: Hijack})
+    tree = DemeTree(cfg)
+    P.oblige("C07.builtin_config_keeps_builtin_engine", type(tree.root) is EADeme)
+    for _ in range(2):
+        tree.run_step()
+    P.oblige("C07.children_exist", len(tree.levels[1]) >= 1)
+    for d in tree.levels[1]:
+        P.oblige("C07.custom_config_dispatches_to_registered_class", type(d) is (MyDeme if use_custom_leaf else CMADeme))
+        P.oblige("C07.child_level_and_parent", d.level == 1 and any(c is d for c in tree.root.children))
+
+
+h_dispatch.env_opts = {"rng": "real"}
+_shared_cases = cases
+
+
+def cases(tier):  # noqa: F811
+    return _shared_cases(tier) + [dict(name="dispatch.custom_deme_class", fn=h_dispatch, params=dict(), profile="fp", budget_s=600)]
